@@ -38,7 +38,7 @@ func (s *genState) layerOf(k int) int {
 	if s.kd == nil {
 		s.kd = NewKeyDialect(s.cfg.KeyD, s.cfg.U, s.cfg.Layers)
 	}
-	return IndepLayer(s.kd.Key(k), s.cfg.BF)
+	return IndepLayerM(s.kd.Key(k), s.cfg.BF, s.cfg.MarshalFn())
 }
 
 func cpMap(m map[int]int) map[int]int {
